@@ -125,3 +125,9 @@ Definition to_sbx (a : abi) (k : ikind) (v : Z) : option (res Z) :=
   match sbx_equiv a k with Some s => Some (conv s k v) | None => None end.
 Definition to_app (a : abi) (k : ikind) (v : Z) : option (res Z) :=
   match sbx_equiv a k with Some s => Some (conv k s v) | None => None end.
+
+(* the source of a conversion is a location in sandbox memory: the i-th read of it returns [f i] *)
+Definition conv_cell (to from : ikind) (f : nat -> Z) : res Z := conv to from (f 0%nat).
+(* before the fix: commit for D21, signed narrowing: lower bound checked on one read, upper bound on a second, the cast on a third *)
+Definition conv_cell_reread (to : ikind) (f : nat -> Z) : res Z :=
+  _ <- check (lo to <=? f 0%nat) ;; _ <- check (f 1%nat <=? hi to) ;; Ok (wrap to (f 2%nat)).
